@@ -16,10 +16,9 @@ PROP = dict(
                      'glyph 0x20 of the font in use is blank (generated fact for every shipped font; synthetic fonts are built so)',
                      'default colours of the shipped consoles (7 on 0)'],
         level_text='Lean theorems over the VT model and an abstract cell-grid console for every geometry, scrollback, tab width and '
-                   'history: active_sync, inactive_untouched, activate_redraws, no_outside_draw; composed with the C19 models of the shipped drivers: shipped_consoles_text (text mode, full) and shipped_consoles_pix_partial (framebuffer, text area a whole number of glyph rows); tied to vt.go and to the shipped '
+                   'history: active_sync, inactive_untouched, activate_redraws, no_outside_draw; composed with the C19 models of the shipped drivers: shipped_consoles_text (text mode, full) and shipped_consoles_pix (framebuffer, every depth/pitch/font/logo offset/height: the Scroll+Fill pair of the terminal re-establishes the display relation on geometries with left-over pixel rows); tied to vt.go and to the shipped '
                    'VgaTextConsole / VesaFbConsole by a differential run that reads the real framebuffer back after every call.',
         level_note='Trusted: Lean kernel (+ propext, Classical.choice, Quot.sound), the theorem statements, the abstract console '
                    '(Spec/Term.lean Console: write/scrollUp/fill with the obvious meaning; the C19 driver models refine it '
-                   '(refines_grid), for framebuffers with left-over pixel rows below the last text line the composition is '
-                   'covered by differential testing only), the harness and export shim.',
+                   '(refines_grid) and the composition is proved for both shipped consoles), the harness and export shim.',
 )
